@@ -26,9 +26,10 @@
    coq/proofs/HtmlEnds.v): for a text that ends with a line break (the shell
    appends one) and highlights that end inside the text, through make_hdata,
    the widening by the context, the clamp to the table and the grouping.
-   Premises of the region theorems that stay premises: the highlights end
-   inside the text (the position map holds offsets of the text, C01/C14), and
-   the style strings and the escaped URL hold no '<'.  The context arithmetic of generate_html (which lines a
+   That the highlights end inside the text follows from the position map
+   holding offsets of the text (C16_highlights_end_inside_their_region_from_the_map;
+   the map's range is C01/C14).  Premises of the region theorems that stay
+   premises: the style strings and the escaped URL hold no '<'.  The context arithmetic of generate_html (which lines a
    region covers) and the no-match branch are part of the executable model and
    are decided by the byte-exact correspondence run and the HTML-parsing oracle
    (see DESIGN.md). *)
@@ -219,6 +220,23 @@ Theorem C16_highlights_end_inside_their_region :
              Forall (fun h => (h_end h <= en)%Z) reg.
 Proof. exact regions_hold_their_highlights. Qed.
 Print Assumptions C16_highlights_end_inside_their_region.
+
+(* ... and the highlights end inside the text when every entry of the position
+   map is an offset of the text (1..len, negative when unsure), also behind the
+   two extensions (macro name behind a lone backslash, rest of the word at an
+   unsure position): with this the premise of C16_region_numbered rests on the
+   position map alone *)
+Theorem C16_highlights_end_inside_their_region_from_the_map :
+  forall is_alpha is_word context tex t cm ms hd,
+  tex = t ++ [c_nl] -> (0 <= context)%Z ->
+  Forall (fun c => (Z.abs c <= zlen tex)%Z) cm ->
+  mapR (make_hdata is_alpha is_word tex cm) ms = Ok hd ->
+  Forall (fun h => (0 <= h_end h <= zlen tex)%Z) hd /\
+  forall reg, In reg (group (map (widen context (zlen (line_starts tex))) hd) [] []) ->
+  forall en, start_at (line_starts tex) (max_endlin reg) = Ok en ->
+             Forall (fun h => (h_end h <= en)%Z) reg.
+Proof. exact regions_hold_their_highlights_map. Qed.
+Print Assumptions C16_highlights_end_inside_their_region_from_the_map.
 
 (* non-vacuity: the last line of a text, context 1 -- the clamp cuts, the
    region ends with the table's last entry, which is the length of the text *)
